@@ -81,6 +81,22 @@ Theorem C03_bits_refuted_before_fix_trailing :
 Proof. exact C03_bits_refuted_orig_trailing. Qed.
 Print Assumptions C03_bits_refuted_before_fix_trailing.
 
+(* The two known (recorded, not repaired) classes, see known_findings.json:
+   header longer than the look-ahead - outside concat_spec's domain, answered with an error code;
+   mixed stream formats - the bit-level statement still holds, the decoded content does not. *)
+Theorem C03_known_header_exceeds_lookahead :
+  KnownClass_header_exceeds_lookahead None [m_large_first; m_large_meta3] /\
+  rr_final (run_native 100 [64] false false [] [TFile; TChunk m_large_first; TFile; TChunk m_large_meta3; TFinish] (init None))
+    = Done BrotliFileNotCraftedForConcatenation.
+Proof. exact known_header_exceeds_lookahead. Qed.
+Print Assumptions C03_known_header_exceeds_lookahead.
+
+Theorem C03_known_mixed_formats :
+  KnownClass_mixed_formats (Some 30) [[11; 0; 128; 97; 3]] /\
+  rr_final (run_native 100 [64] false false [] [TFile; TChunk [11; 0; 128; 97; 3]; TFinish] (init (Some 30))) = Done Success.
+Proof. exact known_mixed_formats. Qed.
+Print Assumptions C03_known_mixed_formats.
+
 Theorem C03_bits_on_former_witnesses :
   Some (rr_emitted (run_native 100 [64] false false [] [TFile; TChunk [59]; TFinish] (init (Some 15)))) = concat_spec (Some 15) [[59]] /\
   Some (rr_emitted (run_native 100 [64] false false [] [TFile; TChunk [129; 1]; TFinish] (init (Some 30)))) = concat_spec (Some 30) [[129; 1]].
